@@ -21,7 +21,7 @@ OptOut == {"structure_kw", "structure_expr", "html_obj", "cdata", "textmode"}
 
 Forbidden(s) ==
   CASE s \in OptOut -> {}
-    [] s \in {"dqattr_interp", "talattr_dq", "dictattr", "i18nattr_dq", "trbody_attr", "trbody_dict", "talattr_unq", "unq_interp", "talattr_bare"} -> {"amp", "lt", "gt", "dq"}
+    [] s \in {"dqattr_interp", "talattr_dq", "dictattr", "i18nattr_dq", "trbody_attr", "trbody_dict", "talattr_unq", "unq_interp", "implicit_attr", "talattr_bare"} -> {"amp", "lt", "gt", "dq"}
     [] s \in {"sqattr_interp", "talattr_sq"} -> {"amp", "lt", "gt", "sq"}
     [] OTHER -> {"amp", "lt", "gt"}     \* text, content, replace, comment, string expr, message, name block
 
